@@ -7,6 +7,12 @@ def respFlex : Int → Int → Bool := flexOf (respFlexTab KafVerif.Gen.C11.kmsg
 
 def known (k : Int) : Bool := KafVerif.Gen.C11.kmsgTab.any (fun r => r.1 == k)
 
+/-- `k:v:corr:e` — e = 0: a Produce sent with acks=0 (expects no reply); e = 1: any other request -/
+def parseReq (s : String) : Option Req :=
+  match s.splitOn ":" with
+  | [k, v, c, e] => do pure { key := (← k.toInt?), ver := (← v.toInt?), corr := (← c.toInt?), acks := if e == "0" then 0 else -1 }
+  | _ => none
+
 def stepLine (u : Unit) (ws : List String) : Unit × String :=
   match ws with
   | ["req", k, v, c, _] => match k.toInt?, v.toInt?, c.toInt? with
@@ -14,6 +20,13 @@ def stepLine (u : Unit) (ws : List String) : Unit × String :=
       let h := replyHeader respFlex k v c
       (u, s!"reply hdr={h.length} corr={toInt32 (u32 (h.take 4))}")
     | _, _, _ => (u, "bad-op")
+  | ["stream", rs] =>
+    -- the frames the connection loop writes for this request sequence (`serve`, bodies empty): correlation id and header length each
+    match (rs.splitOn ",").mapM parseReq with
+    | some reqs =>
+      let frames := serve respFlex (fun _ _ => []) (handleOutcome (fun _ => 1) (fun _ => []) (fun _ => false)) reqs
+      (u, "replies " ++ joinWith "," (frames.map fun f => s!"{frameCorr f}:{f.length}"))
+    | none => (u, "bad-op")
   | ["srh", k, v, hx] => match k.toInt?, v.toInt?, fromHex hx with
     | some k, some v, some b =>
       (u, match skipResponseHeader known respFlex k v b with
